@@ -298,6 +298,19 @@ def c13(ctx):
 
 def line_attribution(ctx):
     F, rep = ctx.F, ctx.rep
+    # where the location of an error comes from: the parser's own position, not that of a look-ahead copy that has read on
+    npe = F.fn(PARSER + "new_parse_error")
+    if npe is None:
+        rep.fail("C13.R6", "anchor::new_parse_error", "Parser::new_parse_error not found")
+    else:
+        bodies = [b for b in common.bodies_with_helpers(F, npe, depth=1) if b.file == npe.file]
+        lines = [(b, bi, t) for b in bodies for bi, t in b.calls() if t["callee"].get("name") == "current_line"]
+        ok, why = bool(lines), "" if lines else "new_parse_error no longer takes the line of an end-of-input error from current_line()"
+        for b, bi, t in lines:
+            names = common.deep_call_names(F, b, t["args"][0])
+            if "clone" in names or "next" in names:
+                ok, why = False, "the line of an error at the end of input is read off a copy of the lexer that has been advanced (%s): trailing comments and blank lines move the reported line away from the faulty statement" % sorted(x for x in names if x)
+        rep.ob("C13.R6", "end-of-input-line-from-own-lexer", ok, why, npe.loc(), how="self.lexer.underlying().current_line()")
     fn = None
     for f in F.all_fns(tests=False):
         if f.kind != "closure" and f.path.endswith("::fmt") and "std::fmt::Display for frontend::parser::ParseErrorLocation" in f.path:
